@@ -35,6 +35,23 @@ SnapScaleOK(small, n, d, tn, td, o) ==
   ELSE IF ~near /\ o.changed THEN "scale_outside_tolerance_changed"
   ELSE "ok"
 
+(* ---------------- snapping with the DOCUMENTED DEFAULT tolerances (scale 1e-6, translation 1e-3, rotation 1e-8) ----------------
+   Values are  n +- 2^-e  (e = 0: exactly n); a tolerance is a / b.  2^-e < a / b  <=>  b < a * 2^e  (exponents up to 30 fit TLC's integers).
+   c = [n, es, et, ew]  : scale  n +- 2^-es,  translation  5 +- 2^-et,  rotation term  2^-ew (0: none);  tolerances <<a, b>>.
+   o = [scale_is_n, scale_unchanged, trans_is_5, trans_unchanged, rot_zero, all_unchanged, idem]                                   *)
+Inside(e, tol) == e = 0 \/ tol[2] < tol[1] * 2 ^ e
+SnapFineOK(c, o) ==
+  LET stol == <<1, 1000000>> ttol == <<1, 1000>> rtol == <<1, 100000000>>
+      rotated == c.ew # 0 /\ ~Inside(c.ew, rtol) IN
+  IF c.f = "affine" /\ rotated THEN (IF o.all_unchanged THEN "ok" ELSE "rotated_transform_was_changed")
+  ELSE IF Inside(c.es, stol) /\ ~o.scale_is_n THEN "scale_within_the_default_tolerance_not_snapped"
+  ELSE IF ~Inside(c.es, stol) /\ ~o.scale_unchanged THEN "scale_outside_the_default_tolerance_changed"
+  ELSE IF c.f = "affine" /\ Inside(c.et, ttol) /\ ~o.trans_is_5 THEN "translation_within_the_default_tolerance_not_snapped"
+  ELSE IF c.f = "affine" /\ ~Inside(c.et, ttol) /\ ~o.trans_unchanged THEN "translation_outside_the_default_tolerance_changed"
+  ELSE IF c.f = "affine" /\ ~o.rot_zero THEN "rotation_term_below_the_tolerance_kept"
+  ELSE IF ~o.idem THEN "snapping_not_idempotent"
+  ELSE "ok"
+
 (* ---------------- integer alignment ---------------- *)
 AlignOK(x, a, dn, up) ==
   IF ~(dn % a = 0 /\ dn <= x /\ x - dn < a) THEN "align_down_contract" ELSE IF ~(up % a = 0 /\ up >= x /\ up - x < a) THEN "align_up_contract" ELSE "ok"
